@@ -110,7 +110,8 @@ def to_atom(v):
                       RefMethod, SymMethod, list, dict, set)):
         raise Unsupported("atom expected, got %r" % (v,))
     import enum
-    if v is None or isinstance(v, (str, int, bool, type, enum.Enum)):
+    from vf.e1.hier import HPath
+    if v is None or isinstance(v, (str, int, bool, type, enum.Enum, HPath)):
         return atom_of(v)
     raise Unsupported("atom expected, got %r" % (v,))
 
@@ -124,6 +125,12 @@ def merge(c, a, b):
     if a is b:
         return a
     ta, tb = type(a), type(b)
+    from vf.e1.hier import HPath as _HP
+    if isinstance(a, _HP) or isinstance(b, _HP):
+        if isinstance(a, _HP) and isinstance(b, _HP) and a == b:
+            return a
+        aa, bb = to_atom(a), to_atom(b)
+        return SAtom(ITE(c, aa.t, bb.t), aa.dom + bb.dom)
     if isinstance(a, (bool, SBool)) and isinstance(b, (bool, SBool)):
         return mkbool(ITE(c, raw_bool(a), raw_bool(b)))
     if isinstance(a, (int, SInt)) and isinstance(b, (int, SInt)) and not isinstance(a, bool) \
